@@ -45,7 +45,7 @@ fn paths() -> Vec<(&'static str, Vec<Step>)> {
 fn specs() -> Vec<Spec> {
     let mut out = Vec::new();
     for (pt, p) in paths() {
-        for ty in ["int", "real", "text", "boolean", "int[]", "text[]", "real[]"] {
+        for ty in ["int", "real", "text", "boolean", "int[]", "text[]", "real[]", "int[][]", "text[][]"] {
             for m in ["", "CONVERT", "DEFAULT", "NOT NULL"] {
                 if ty.ends_with("[]") && (m == "DEFAULT" || m == "CONVERT") {
                     continue;
@@ -121,13 +121,18 @@ fn ref_value(s: &Spec, doc: &Option<J>) -> RVal {
             None => RVal::Null,
         };
     }
-    if let Some(el) = s.ty.strip_suffix("[]") {
+    convert_typed(s.ty, v)
+}
+
+/// arrays element-wise (arrays of arrays: each element converted as an array of the inner type)
+fn convert_typed(ty: &str, v: &J) -> RVal {
+    if let Some(el) = ty.strip_suffix("[]") {
         return match v.as_array() {
-            Some(items) => RVal::Array(items.iter().map(|x| convert_scalar(el, x)).collect()),
+            Some(items) => RVal::Array(items.iter().map(|x| convert_typed(el, x)).collect()),
             None => RVal::Null,
         };
     }
-    convert_scalar(s.ty, v)
+    convert_scalar(ty, v)
 }
 
 const LEAVES: [&str; 15] = ["null", "true", "false", "0", "-1", "9223372036854775807", "9223372036854775808", "18446744073709551616", "1.5", "1e308", "\"s\"", "\"12\"", "\"1.5\"", "\"\"", "\"2021-01-01 00:00:00\""];
